@@ -67,16 +67,16 @@ CLAIMED.update({
          TB+'Writer errors are not injected (panic by design, statement silent).', 'deterministic simulation: recorded serial history vs guest write sequence (exactly-once, in-order)'),
 })
 
-# classes added in the later sessions (waves 3-7 of seeded changes, DESIGN.md 10.5-10.12); appended to the level text
+# classes added in the later sessions (waves 3-7 of seeded changes, DESIGN.md 10.5-10.13); appended to the level text
 EXT = {
  'C01': 'banked code, stores through OAM pointers with the LCD on, marker self-loads with the test ROMs\' verdict registers, bus-write oracle (hook H4)',
  'C02': 'DMA in flight, frame-loop boundary, wait-loop idioms of real guests with the LCD on, key events during programs',
- 'C03': 'bus read/write oracle with cycles (hook H4), instruction behind HALT / a jump / a frame boundary, hardware registers (IF, FF46 included) as stamped targets',
+ 'C03': 'bus read/write oracle with cycles (hook H4), instruction behind HALT / a jump / a frame boundary, hardware registers (IF, FF46 included) as stamped targets, immediates that coincide with register pairs',
  'C04': 'HALT and CB-prefixed instructions in sequences, DMA in flight, dispatch pushing onto IE',
  'C05': 'EI;HALT with a pending request, CB prefix behind the halt bug, wake-up dispatch pushing onto IE',
  'C06': 'timer-hot, ie-dispatch and dma-hot classes, instruction trace and DebugLCD configurations',
  'C07': 'control write + store unobserved in between, reference cartridge after every cartridge write, per-channel status bits',
- 'C08': 'every type byte of a family, 8 MiB MBC3, headers in every page, sparse observation, controller-less images declaring more ROM/RAM',
+ 'C08': 'every type byte of a family, 8 MiB MBC3, headers in every page, sparse observation, controller-less images declaring more ROM/RAM, distinct pages with equal checksums',
  'C09': 'as C08, mid-history dumps, DMA from cartridge space',
  'C10': 'ROM sizes to 8 MiB, DMA bursts and other-unit writes meanwhile, floods of latch-0 writes',
  'C11': 'process exit as a violation (journalled workers), corner programs, trimmed dumps, headers in every page',
@@ -92,8 +92,8 @@ EXT = {
  'C21': 'sweep class, fresh machine, noise retuned without trigger, notes on second boundaries',
  'C22': 'bursts and storms of 2^8..2^17 events between reads, minute-long holds, Super Game Boy packet probe',
  'C23': 'executed-store oracle, read-modify-write forms, pairs of instances with slow writers, 70,000-byte lines, standard output and standard error watched',
- 'C24': 'host stalls, cartridge shapes with first-touch reads, consumer-pace class (real Run loop against bursty consumers), bus traffic in the trace',
- 'C25': 'concurrent class under the race detector, crowds of 9-13 instances, instances of one cartridge shape (clock cartridges), second release, bus traffic in the trace',
+ 'C24': 'host stalls, cartridge shapes with first-touch reads, consumer-pace class (real Run loop against bursty consumers), bus traffic in the trace, one ROM file name and modification time for all instances, an undefined opcode first in the fresh process',
+ 'C25': 'concurrent class under the race detector, crowds of 9-13 instances, instances of one cartridge shape (clock cartridges), second release, bus traffic in the trace, one ROM file name for all instances with image ground truth',
  'C26': 'sound-unit clock, soak class, write-induced overflows incl. stores every other cycle, harness-acknowledged timer requests',
 }
 NOT_YET = 'check not built yet in this session; planned in DESIGN.md section 6 (will be claimed when its simulator scenario class and oracle exist)'
@@ -106,8 +106,8 @@ for p in props:
     if i in CLAIMED:
         ref,text,note,tech=CLAIMED[i]
         if i in EXT:
-            text += ' Later extensions (DESIGN.md 10.5-10.12; the evidence file carries the full current rule): ' + EXT[i] + '.'
-            ref += ', 10.5-10.12'
+            text += ' Later extensions (DESIGN.md 10.5-10.13; the evidence file carries the full current rule): ' + EXT[i] + '.'
+            ref += ', 10.5-10.13'
         checks.append({
           'property_id': i,
           'quick_cmd': f'./check {i} quick',
